@@ -574,10 +574,20 @@ pub fn gen_adoc(rng: &mut Rng, cram_safe: bool) -> ADoc {
 
 // ---- the generic writer / reader
 
+thread_local! {
+    /// the CRAM version the next `a_write` asks for: 3.1 when a CRAM 3.1 codec is selected
+    static CRAM_31: std::cell::Cell<bool> = const { std::cell::Cell::new(false) };
+}
+
 fn a_write(fo: Option<AFmt>, co: Option<Comp>, header: &sam::Header, recs: &[RecordBuf]) -> std::io::Result<Vec<u8>> {
     let mut out = Vec::new();
     {
         let mut b = alignment::io::writer::Builder::default().set_reference_sequence_repository(repository());
+        if CRAM_31.with(|c| c.get()) {
+            // selecting a CRAM 3.1 codec makes the writer emit a 3.1 file definition
+            use noodles_cram::{codecs::{rans_nx16, Encoder}, container::BlockContentEncoderMap};
+            b = b.set_block_content_encoder_map(BlockContentEncoderMap::builder().set_default_encoder(Some(Encoder::RansNx16(rans_nx16::Flags::empty()))).build());
+        }
         if let Some(f) = fo {
             b = b.set_format(f);
         }
@@ -1591,6 +1601,15 @@ fn tolerant_pipe(ctx: &mut Ctx, doc: &ADoc, case: &str, rng: &mut Rng) {
 
 fn adoc_case(ctx: &mut Ctx, doc: &ADoc, case: &str, rng: &mut Rng, cram: bool, full_pairs: bool) {
     tolerant_pipe(ctx, doc, case, rng);
+    // one document in three is written as CRAM 3.1 (file definition `CRAM\x03\x01`) where CRAM is written
+    let v31 = rng.chance(1, 3);
+    CRAM_31.with(|c| c.set(v31));
+    ctx.bump(if v31 { "adoc_cram_version_3.1" } else { "adoc_cram_version_3.0" });
+    adoc_case_inner(ctx, doc, case, rng, cram, full_pairs);
+    CRAM_31.with(|c| c.set(false));
+}
+
+fn adoc_case_inner(ctx: &mut Ctx, doc: &ADoc, case: &str, rng: &mut Rng, cram: bool, full_pairs: bool) {
     let header = a_header(doc.hkind);
     let bufs: Vec<RecordBuf> = doc.recs.iter().map(to_record_buf).collect();
     let hsum = a_header_summary(&header);
@@ -1637,7 +1656,7 @@ fn adoc_case(ctx: &mut Ctx, doc: &ADoc, case: &str, rng: &mut Rng, cram: bool, f
                 ctx.corr(format!("c20 alead sam {} {}", (doc.hkind > 0) as u8, name), format!("{} {}", hex(&payload[..n.min(payload.len())]), if payload.is_empty() { "empty" } else { "nonempty" }));
             }
             AFmt::Bam => ctx.corr("c20 alead bam".into(), hex(&payload[..payload.len().min(4)])),
-            AFmt::Cram => ctx.corr("c20 alead cram".into(), hex(&payload[..payload.len().min(6)])),
+            AFmt::Cram => ctx.corr(if CRAM_31.with(|c| c.get()) { "c20 alead cram31".into() } else { "c20 alead cram".into() }, hex(&payload[..payload.len().min(6)])),
         }
         // 2. detection, at several first-read sizes (correspondence) and at the full window (oracle)
         for k in ks_for(rng, stream.len()) {
